@@ -18,6 +18,7 @@ import (
 	"regexp"
 	"sort"
 	"strings"
+	"sync/atomic"
 	"testing"
 	"time"
 
@@ -34,14 +35,22 @@ import (
 	"verifharness/gen"
 )
 
-const c10Watch = 60 * time.Second
+const c10Watch = 40 * time.Second
 
 // c10Call runs one entry point under the crash / hang oracle.
+// c10Hung is set once a call did not come back: its goroutine is still spinning, and every further call of this process
+// would only pile more of them up (the finding is reported; the remaining cases of the process are skipped).
+var c10Hung atomic.Bool
+
 func c10Call(t gen.TB, entry string, rp map[string]any, f func() error) gen.Verdict {
+	if c10Hung.Load() {
+		return gen.Verdict{}
+	}
 	gen.Eval()
 	v, hung := gen.CallWatch(c10Watch, f)
 	if hung {
-		gen.Fail(t, gen.Violation{Key: "hang@" + entry, Oracle: "every entry point returns within the watchdog", Detail: entry + " did not return within 60 s", Replay: rp})
+		c10Hung.Store(true)
+		gen.Fail(t, gen.Violation{Key: "hang@" + entry, Oracle: "every entry point returns within the watchdog", Detail: entry + " did not return within the watchdog time", Replay: rp})
 		return v
 	}
 	if v.Panicked() {
@@ -568,16 +577,63 @@ func TestC10(t *testing.T) {
 				default:
 					w.PckCrl.Revoked = [][]byte{append(append([]byte{}, serial[:n-1]...), serial[n-1]^1)} // a neighbour of the leaf's serial
 				}
+				// the entry that revokes carries a reason code: none, the defined ones, undefined ones, negative ones
+				reason := []int{0, 1, 5, 10, 11, 255, -1, -128, 1<<31 - 1, -1 << 31}[(i/3)%10]
+				w.PckCrl.Reasons, w.RootCrl.Reasons = []int{reason}, []int{reason}
 				w.BuildCollateral()
 				rp := w.CaseFile(gen.LvlCRL, nil, nil, nil, "nopanic")
 				o := w.Options(gen.LvlCRL, w.NewGetter(), nil)
-				c10Call(t, fmt.Sprintf("verify.RawTdxQuote+revoked-%s-serial-of-%d-octets", who, n), rp, func() error { return verify.RawTdxQuote(w.Raw, o) })
+				c10Call(t, fmt.Sprintf("verify.RawTdxQuote+revoked-%s-serial-of-%d-octets-reason-%d", who, n, reason), rp, func() error { return verify.RawTdxQuote(w.Raw, o) })
 				thenSupported(t, w, o, "revoked-"+who, rp)
 				gen.NonTrivial("long-serial", n, who)
 				gen.Class("revocation-path:" + who)
 			}
 		}
 		gen.Exhaustive("10 serial-number lengths x {leaf, issuing CA, TCB signer, QE signer revoked; neighbour serial listed}", true)
+	})
+
+	// (2d) certificate chains in the quote whose certificates name each other in odd ways (only names matter before any
+	// signature is looked at): two CA certificates that name each other as issuer, a leaf that names itself, the same
+	// certificate three times, the root first, four and five blocks. Every entry point returns.
+	gen.Direct(t, "pck-chain-issuer-graphs", func(t *testing.T) {
+		w := gen.NewWorld(gen.NewPKI(gen.PKISpec{Seed: "pki-A"}), gen.NewStream(gen.Seed()+33, "c10graph"))
+		w.SignQuote()
+		mk := func(cn, key string, issuer *gen.Cert, ca bool) *gen.Cert {
+			return gen.MakeCert(gen.CertSpec{CN: cn, KeyLabel: "c10graph/" + key, Serial: []byte{0x33, byte(len(key))}, NotBefore: gen.Wide.NotBefore, NotAfter: gen.Wide.NotAfter, CA: ca, CRLDP: []string{gen.RootCrlURL}}, issuer)
+		}
+		y0 := mk(gen.CNRoot, "y0", nil, true)
+		x := mk(gen.CNPlatform, "x", y0, true)
+		y := mk(gen.CNRoot, "y", x, true) // named like the root, issued (by name) by the platform CA: x and y name each other
+		leafX := gen.MakeLeaf(x, gen.LeafSpec{KeyLabel: "c10graph/leaf", SgxDER: gen.SgxTree(&w.Sgx).Encode()})
+		selfLeaf := gen.MakeLeaf(nil, gen.LeafSpec{KeyLabel: "c10graph/selfleaf", SgxDER: gen.SgxTree(&w.Sgx).Encode()})
+		p := w.PKI
+		chains := map[string][]*gen.Cert{
+			"two-cas-naming-each-other": {leafX, x, y}, "two-cas-naming-each-other-swapped": {leafX, y, x}, "cycle-without-a-leaf": {x, y, x},
+			"self-issued-leaf-first": {selfLeaf, p.Int, p.Root}, "leaf-three-times": {w.Leaf, w.Leaf, w.Leaf}, "root-three-times": {p.Root, p.Root, p.Root},
+			"root-first": {p.Root, p.Int, w.Leaf}, "intermediate-first": {p.Int, w.Leaf, p.Root}, "four-blocks": {w.Leaf, p.Int, p.Root, y}, "five-blocks-with-a-cycle": {w.Leaf, p.Int, x, y, p.Root},
+			"leaf-under-the-cycle-and-genuine-root": {leafX, x, p.Root}, "intermediate-twice": {w.Leaf, p.Int, p.Int},
+		}
+		names := make([]string, 0, len(chains))
+		for n := range chains {
+			names = append(names, n)
+		}
+		sort.Strings(names)
+		for i, name := range names {
+			if !gen.ShardOwns(i) {
+				continue
+			}
+			q := w.Q.Clone()
+			q.Chain = gen.ChainPEM(chains[name]...)
+			q.FixSizes()
+			raw := q.Encode()
+			rp := map[string]any{"kind": "crash-raw", "raw_hex": hex.EncodeToString(raw)}
+			rawEntryPoints(t, w, raw, rp)
+			if rq, err := gen.RefParse(raw); err == nil {
+				c10Call(t, "verify.ExtractChainFromQuote+"+name, rp, func() error { _, err := verify.ExtractChainFromQuote(rq.ToProto()); return err })
+			}
+			gen.NonTrivial("chain-graph", name)
+			gen.Class("pck-chain-issuer-graph")
+		}
 	})
 
 	// (2b) the dates of correctly signed documents: every pairing of issueDate / nextUpdate spellings, including equal
